@@ -127,7 +127,6 @@ class Peek : public IPhreeqc {
     return it == IPhreeqc::Instances.end() ? nullptr : it->second;
   }
   static long count() { return (long)IPhreeqc::Instances.size(); }
-  static long next_index() { return (long)IPhreeqc::InstancesIndex; }
 };
 
 static double basic_cb(double x1, double x2, const char *str, void *cookie) {
@@ -590,7 +589,7 @@ static std::string do_cmd(const std::vector<Tok> &t) {
     throw std::runtime_error("unknown wb op " + what);
   }
 #endif
-  if (op == "registry") return "{\"count\":" + jint(Peek::count()) + ",\"next\":" + jint(Peek::next_index()) + "}";
+  if (op == "registry") return "{\"count\":" + jint(Peek::count()) + "}";
   if (op == "ping") return "{\"pong\":1}";
   throw std::runtime_error("unknown op " + op);
 }
